@@ -519,5 +519,8 @@ type simLogger struct {
 
 func (l *simLogger) Output(depth int, s string) error {
 	l.rc.Logf("[%s] %s", l.name, s)
+	if strings.Contains(s, "messagePump error") {
+		l.rc.probes["log_messagepump_error"]++
+	}
 	return nil
 }
